@@ -55,6 +55,7 @@ func execAbsoluteLocationPathWithRelative(context *exprContext, expr *grammar.Gr
 
 func execStep(context *exprContext, expr *grammar.Grammar) error {
 	var nextBsr *bsr.BSR
+	context.principal = principalElement
 
 	for _, cn := range expr.BSR.GetAllNTChildren() {
 		for _, c := range cn {
@@ -204,11 +205,7 @@ func execNameTestAnyElement(context *exprContext, expr *grammar.Grammar) error {
 	result := make(NodeSet, 0)
 
 	for _, i := range nodeSet {
-		if _, ok := i.Node().(node.NamedNode); ok {
-			result = append(result, i)
-		}
-
-		if _, ok := i.Node().(node.Namespace); ok {
+		if context.isPrincipal(i.Node()) {
 			result = append(result, i)
 		}
 	}
@@ -252,7 +249,7 @@ func nameTestNamespaceAnyLocal(namespaceLookup string, context *exprContext, exp
 	result := make(NodeSet, 0)
 
 	for _, i := range nodeSet {
-		if node, ok := i.Node().(node.NamedNode); ok {
+		if node, ok := i.Node().(node.NamedNode); ok && context.isPrincipal(i.Node()) {
 			if node.Space() == namespaceValue {
 				result = append(result, i)
 			}
@@ -293,7 +290,7 @@ func nameTestLocalAnyNamespace(localValue string, context *exprContext, expr *gr
 	result := make(NodeSet, 0)
 
 	for _, i := range nodeSet {
-		if node, ok := i.Node().(node.NamedNode); ok {
+		if node, ok := i.Node().(node.NamedNode); ok && context.isPrincipal(i.Node()) {
 			if node.Local() == localValue {
 				result = append(result, i)
 			}
@@ -372,7 +369,7 @@ func nameTestQNameNamespaceWithLocal(namespaceLookup, local string, context *exp
 	result := make(NodeSet, 0)
 
 	for _, i := range nodeSet {
-		if node, ok := i.Node().(node.NamedNode); ok {
+		if node, ok := i.Node().(node.NamedNode); ok && context.isPrincipal(i.Node()) {
 			if node.Local() == local && node.Space() == namespaceValue {
 				result = append(result, i)
 			}
@@ -394,13 +391,13 @@ func execNameTestQNameLocalOnly(context *exprContext, expr *grammar.Grammar) err
 	queryName := expr.GetString()
 
 	for _, child := range nodeSet {
-		if elem, ok := child.Node().(node.NamedNode); ok {
+		if elem, ok := child.Node().(node.NamedNode); ok && context.isPrincipal(child.Node()) {
 			if elem.Space() == "" && elem.Local() == queryName {
 				nextResult = append(nextResult, child)
 			}
 		}
 
-		if ns, ok := child.Node().(node.Namespace); ok {
+		if ns, ok := child.Node().(node.Namespace); ok && context.isPrincipal(child.Node()) {
 			namespaceValue := context.NamespaceDecls[queryName]
 
 			if ns.NamespaceValue() == namespaceValue {
@@ -423,11 +420,13 @@ func execAxisName(context *exprContext, expr *grammar.Grammar) error {
 
 	axis := expr.GetString()
 	var result Result
+	context.principal = principalElement
 
 	switch axis {
 	case "child":
 		result = selectChild(nodeSet)
 	case "attribute":
+		context.principal = principalAttribute
 		result = selectAttributes(nodeSet)
 	case "ancestor":
 		result = selectAncestor(nodeSet)
@@ -442,6 +441,7 @@ func execAxisName(context *exprContext, expr *grammar.Grammar) error {
 	case "following-sibling":
 		result = selectFollowingSibling(nodeSet)
 	case "namespace":
+		context.principal = principalNamespace
 		result = selectNamespace(nodeSet)
 	case "parent":
 		result = selectParent(nodeSet)
@@ -476,6 +476,7 @@ func execAbbreviatedAxisSpecifier(context *exprContext, expr *grammar.Grammar) e
 		return errQueryNonNodeset
 	}
 
+	context.principal = principalAttribute
 	context.result = selectAttributes(nodeSet)
 	return nil
 }
